@@ -184,6 +184,12 @@ func c19Exec(r *Run, line string) string {
 	if obs, ok := c19ExecX(r, line, f); ok {
 		return obs
 	}
+	if obs, ok := c19ExecAddr(r, line, f); ok {
+		return obs
+	}
+	if obs, ok := c19ExecLock(r, line, f); ok {
+		return obs
+	}
 	return c19Exec2(r, line, f)
 }
 
@@ -1138,7 +1144,16 @@ func TestC19(t *testing.T) {
 		return fmt.Sprintf("%d %s %d %d %s %d", g.Intn(2), Hex([]byte(c19RollappID(g))), g.BoundaryU64(), g.Intn(4), Hex([]byte(ch)), g.BoundaryU64())
 	}
 	n := r.N(16000, 220000)
+	c19AddrDirected(emit)
 	for i := 0; i < n; i++ {
+		if g.Chance(12) {
+			c19GenAddr(r, g, emit)
+			continue
+		}
+		if g.Chance(8) {
+			c19GenLock(r, g, emit)
+			continue
+		}
 		if g.Chance(30) {
 			if g.Chance(60) {
 				c19GenColl(r, g, emit)
